@@ -194,6 +194,22 @@ def correspondence_plans(ctx, P: C.Part, n_cfg: int) -> None:
                                                     "generated_head": gd.split()[:6], "impl_head": rp["D"][j][:6]})
                             break
                     P.hit("genstarts-bins", m)
+                if gbad is None and sched in ("vectorized_ltf", "new_ltf"):
+                    # the GENERATED closed-form post-processing (D and O) against the real plan, every bin
+                    op = "genvec" if sched == "vectorized_ltf" else "gennew"
+                    for j in range(m):
+                        gd = ctx.driver.ask(f"starts {op} {cfg['N']} {rp['L'][j]} {rp['K'][j]}")
+                        dpart, opart = gd.split(" | ") if " | " in gd else (gd.rstrip(" |"), "")
+                        try:
+                            okD = [int(t) for t in dpart.split()] == rp["D"][j]
+                            okO = abs(C.h2f(opart.strip()) - float(rp["O"][j])) <= 1e-12
+                        except Exception:
+                            okD = okO = False
+                        if not (okD and okO):
+                            P.disagreements.append({"op": "starts " + op, "sched": sched, "cfg": cfg, "bin": j, "L": rp["L"][j], "K": rp["K"][j],
+                                                    "generated": gd[:200], "impl_D_head": rp["D"][j][:6], "impl_O": float(rp["O"][j])})
+                            break
+                    P.hit("genpost-bins", m)
                 if gbad is not None:
                     if unstable(sched, cfg, rp, gbad):
                         P.unstable += 1
